@@ -31,6 +31,11 @@ META = {
         text="C03_unpack (success implies the recomputed prefilter hash equals the requested id), C03_mismatch (parses but differs => exactly hash-mismatch), C03_corrupt_never_ok, C03_mirror (Commit only after a matching scan) are proved for every header list, filter, filesystem and hash function. The model is compared with the real Unpack and Mirror on wares altered after they were stored.",
         note="Trusted: Lean kernel; archive/tar + gzip decoding (the harness decodes the altered bytes for the model); the fetch stream.",
     ),
+    "C08": dict(
+        technique="Lean 4 invariant proof over the warehouse write-path transition system (any number of writers, demonic failures, crash = stop) + fault-injection differential correspondence",
+        text="C08_inv: for any number of concurrent writers, any schedule, any choice of failing steps and any crash point, every final address holds a complete ware (so no reader ever sees a partial one); C08_error_clean, C08_no_staging_after_return; C08_counter_flush shows the pre-fix behaviour violates it; T-fact ties check that every flushing Close in Pack is checked and that the kvfs system-call sequence is the model's. The model is compared with real tar/zip Pack and Mirror under injected faults at every step and on really full disks.",
+        note="Trusted: Lean kernel; atomic rename; fresh staging names. Not exhibited: power loss (no fsync), NFS-style non-atomic rename.",
+    ),
     "C09": dict(
         technique="Lean 4 invariant proof over the cache-protocol transition system (any number of processes, any schedule, crash = stop) + schedule-forcing differential correspondence",
         text="C09_inv: for every number of processes, every interleaving of their protocol steps and every crash point, every shelf holds exactly the complete fileset it is named after; C09_clean: a returned process leaves no temp dir; C09_fail_adds_nothing; C09_race_loser_succeeds. The transition system is validated against the real cache code by forcing random schedules on goroutines with a barrier in the cache.* hooks.",
